@@ -15,6 +15,7 @@ import (
 
 	"github.com/piotrnar/gocoin/lib/btc"
 	"github.com/piotrnar/gocoin/lib/others/bech32"
+	"github.com/piotrnar/gocoin/lib/others/ripemd160"
 	"verif/vlib"
 )
 
@@ -487,11 +488,40 @@ func checkPk(scr []byte, testnet bool) {
 		r.PropFail("pk-panic", fmt.Sprintf("NewAddrFromPkScript panics on %x: %s", scr, pan), rep)
 		return
 	}
+	if want, isPk := refP2pk(scr, testnet); isPk {
+		r.Hit("pk-form-p2pk")
+		if il != want {
+			r.PropFail("pk-p2pk", fmt.Sprintf("NewAddrFromPkScript(%x) = %q; a P2PK script denotes the P2PKH address of HASH160(key): %q", scr, il, want), rep)
+			return
+		}
+	} else if len(scr) > 0 && (scr[0] >= 0x20 && scr[0] <= 0x22 || scr[0] >= 0x40 && scr[0] <= 0x42) && il != "none" {
+		// a near-P2PK script (wrong push length / wrong final opcode / wrong total length) must not be recognised
+		r.PropFail("pk-near-p2pk", fmt.Sprintf("NewAddrFromPkScript(%x) recognises a script that is not push33/push65 OP_CHECKSIG: %q", scr, il), rep)
+		return
+	}
 	if il != mo {
 		r.TieFail("tie-pk", fmt.Sprintf("model/impl differ on NewAddrFromPkScript(%x): impl=%q model=%q", scr, il, mo), rep)
 		return
 	}
 	r.TieOK()
+}
+
+// refP2pk: is scr exactly <push 33|65> OP_CHECKSIG, and if so the expected "ok <addr> <outscript>" line:
+// address = Base58Check(ver ‖ RIPEMD160(SHA256(key))), OutScript = the P2PKH script of that hash.
+func refP2pk(scr []byte, testnet bool) (string, bool) {
+	if !(len(scr) == 35 && scr[0] == 0x21 || len(scr) == 67 && scr[0] == 0x41) || scr[len(scr)-1] != 0xac {
+		return "", false
+	}
+	h1 := sha256.Sum256(scr[1 : len(scr)-1])
+	rh := ripemd160.New()
+	rh.Write(h1[:])
+	h := rh.Sum(nil)
+	ver := byte(0)
+	if testnet {
+		ver = 111
+	}
+	os := append(append([]byte{0x76, 0xa9, 0x14}, h...), 0x88, 0xac)
+	return "ok " + vlib.Hex([]byte(mkB58Addr(ver, h))) + " " + vlib.Hex(os), true
 }
 
 func checkB32(hrp string, data []byte, m bool) {
@@ -864,7 +894,8 @@ func main() {
 			scr = g.Bytes(g.Intn(70))
 		default:
 			base := [][]byte{append(append([]byte{0x76, 0xa9, 0x14}, g.Bytes(20)...), 0x88, 0xac), append(append([]byte{0xa9, 0x14}, g.Bytes(20)...), 0x87),
-				append([]byte{0, 20}, g.Bytes(20)...), append([]byte{0x51, 32}, g.Bytes(32)...)}[g.Intn(4)]
+				append([]byte{0, 20}, g.Bytes(20)...), append([]byte{0x51, 32}, g.Bytes(32)...),
+				append(append([]byte{0x21}, g.Bytes(33)...), 0xac), append(append([]byte{0x41}, g.Bytes(65)...), 0xac)}[g.Intn(6)]
 			scr = append([]byte{}, base...)
 			switch g.Intn(3) {
 			case 0:
@@ -877,13 +908,30 @@ func main() {
 		}
 		checkPk(scr, g.Bool())
 	}
+	// 7b. pay-to-pubkey boundaries: push length, total length and final opcode one off, both nets
+	for _, n := range []int{33, 65} {
+		for _, tn := range []bool{false, true} {
+			key := g.Bytes(n)
+			key[0] = byte(g.Pick(2, 3, 4, 0, 0xff)) // the code does not look at the prefix
+			checkPk(append(append([]byte{byte(n)}, key...), 0xac), tn)
+			checkPk(append(append([]byte{byte(n - 1)}, key...), 0xac), tn)
+			checkPk(append(append([]byte{byte(n + 1)}, key...), 0xac), tn)
+			checkPk(append(append([]byte{byte(n)}, key...), 0xab), tn)
+			checkPk(append(append([]byte{byte(n)}, key...), 0xad), tn)
+			checkPk(append(append([]byte{byte(n)}, key[1:]...), 0xac), tn)
+			checkPk(append(append(append([]byte{byte(n)}, key...), 0), 0xac), tn)
+			checkPk(append(append([]byte{byte(n)}, key...), 0xac, 0xac), tn)
+		}
+	}
+	// 8. WIF private-key strings
+	wifStreams(g.Fork())
 
 	r.Assume = []string{
 		"SHA-256 and RIPEMD-160 are modelled (Lean executable versions validated here against Go's), theorems are parametric in them",
 		"the independent reference decoder in this harness (refSegwitValid/refB58CheckValid) states BIP173/BIP350/Base58Check",
 	}
-	r.Finish("corpus of BIP173/350 vectors; exhaustive grid hrp{bc,tb} x version 0..17 x program length 0..41 (valid ones also upper-cased, plus checksummed strings with wrong variant / disturbed padding / extra symbol); all 256 Base58 version bytes; 1..4 random edits (substitution, insertion, deletion, case flip, swap, raw byte) of valid addresses; arbitrary short strings; raw base58/bech32 codec inputs; script->address forms and their one-edit neighbours. distinct = distinct (operation,input) pairs; every generated case is non-trivial in that it reaches a decoder/encoder",
-		"each case is run through the real gocoin functions, the Lean model (oracle_c15) and an independent reference; the property predicate (accepted iff valid; decoded script = denoted script; re-encoding = input up to Bech32 case; script->address->script) is evaluated on the real code, model/impl equality is the tie for the Lean theorems in Props/C15.lean")
+	r.Finish("corpus of BIP173/350 vectors; exhaustive grid hrp{bc,tb} x version 0..17 x program length 0..41 (valid ones also upper-cased, plus checksummed strings with wrong variant / disturbed padding / extra symbol); all 256 Base58 version bytes; 1..4 random edits (substitution, insertion, deletion, case flip, swap, raw byte) of valid addresses; arbitrary short strings; raw base58/bech32 codec inputs; script->address forms (P2PKH, P2SH, P2PK 33/65, witness) and their one-edit neighbours; WIF strings: valid compressed/uncompressed for several version bytes, 1..4 random edits, wrong flag byte / wrong payload length / wrong checksum / flipped payload bit / invalid character / extra leading or trailing character. distinct = distinct (operation,input) pairs; every generated case is non-trivial in that it reaches a decoder/encoder",
+		"each case is run through the real gocoin functions, the Lean model (oracle_c15) and an independent reference; the property predicate (accepted iff valid; decoded script = denoted script; re-encoding = input up to Bech32 case; script->address->script; P2PK script -> P2PKH address of HASH160(key); WIF accepted iff Base58Check(ver‖key32[‖01]) and String() = input) is evaluated on the real code, model/impl equality is the tie for the Lean theorems in Props/C15.lean")
 }
 
 func replay(path string) {
@@ -910,6 +958,12 @@ func replay(path string) {
 	case "pk":
 		tn, _ := doc.Replay["testnet"].(bool)
 		checkPk(vlib.UnHex(str("script")), tn)
+	case "wifdec":
+		checkWifDec("replay", string(vlib.UnHex(str("string_hex"))))
+	case "wifenc":
+		v, _ := doc.Replay["ver"].(float64)
+		c, _ := doc.Replay["compr"].(bool)
+		checkWifEnc(byte(v), vlib.UnHex(str("key")), c)
 	case "b32enc":
 		m, _ := doc.Replay["m"].(bool)
 		checkB32(str("hrp"), vlib.UnHex(str("data")), m)
